@@ -28,6 +28,8 @@ struct Case {
     script: Script,
     need_reply: bool,
     reply_ack: bool,
+    /// does the frontend echo VHOST_USER_F_PROTOCOL_FEATURES in SET_FEATURES?
+    echo_pf: bool,
     /// Some(true): must succeed with the scripted values; Some(false): must fail; None: not judged
     expect_ok: Option<bool>,
     shape: String,
@@ -141,7 +143,8 @@ fn judge(cfg: &Cfg, c: &Case, idx: u64) {
         g.script.features = spec::VIRTIO_F_PROTOCOL_FEATURES | 3;
         g.script.protocol_features = ops::ALL_PF;
     }
-    if let Err(e) = util::negotiate(&mut cn.fe, spec::VIRTIO_F_PROTOCOL_FEATURES, Some(pf)) {
+    let virtio = if c.echo_pf { spec::VIRTIO_F_PROTOCOL_FEATURES | 1 } else { 1 };
+    if let Err(e) = util::negotiate(&mut cn.fe, virtio, Some(pf)) {
         report::inconclusive(&format!("negotiation failed: {e}"));
         return;
     }
@@ -155,9 +158,9 @@ fn judge(cfg: &Cfg, c: &Case, idx: u64) {
     report::eval(1);
     report::count(&format!("op.{}", c.op.name()), 1);
     report::count(match c.expect_ok { Some(true) => "expect.success", Some(false) => "expect.error", None => "expect.unjudged" }, 1);
-    report::distinct(report::hash_mix(report::hash_str(&format!("{}:{}:{}{}", c.op.name(), c.shape, c.need_reply as u8, c.reply_ack as u8)), report::hash_bytes(format!("{:?}", c.op).as_bytes())));
+    report::distinct(report::hash_mix(report::hash_str(&format!("{}:{}:{}{}{}", c.op.name(), c.shape, c.need_reply as u8, c.reply_ack as u8, c.echo_pf as u8)), report::hash_bytes(format!("{:?}", c.op).as_bytes())));
     let base = |extra: J| {
-        jo! {"op" => c.op.j(), "handler_outcome" => c.shape.as_str(), "need_reply" => c.need_reply, "reply_ack" => c.reply_ack, "observed" => extra}
+        jo! {"op" => c.op.j(), "handler_outcome" => c.shape.as_str(), "need_reply" => c.need_reply, "reply_ack" => c.reply_ack, "pf_echoed_in_set_features" => c.echo_pf, "observed" => extra}
     };
     match v {
         Verdict::Inconclusive(r) => report::inconclusive(&format!("{} {}: {r}", c.op.name(), c.shape)),
@@ -192,6 +195,31 @@ fn judge(cfg: &Cfg, c: &Case, idx: u64) {
                 }
             }
             report::sample(&format!("{}:{}", c.op.name(), c.shape), jo! {"op" => c.op.j(), "handler_outcome" => c.shape.as_str(), "need_reply" => c.need_reply, "reply_ack" => c.reply_ack, "call_returned" => out.j()});
+            // The session goes on: when the backend is still serving (in-band failure encodings keep
+            // the connection), the next operation must again return exactly what its handler produces.
+            let serving = cn.server_tid.load(Ordering::SeqCst) > 0 && sys::wait_until(200, || sys::parked_in(cn.server_tid.load(Ordering::SeqCst), &[sys::SYS_RECVMSG]) || cn.server_tid.load(Ordering::SeqCst) == -1) && cn.server_tid.load(Ordering::SeqCst) > 0;
+            if serving {
+                let tag = 0x5eed_0000_0000_0000u64 | idx;
+                {
+                    let mut g = cn.be.lock().unwrap();
+                    g.script.fail.clear();
+                    g.script.max_mem_slots = tag;
+                }
+                let (v2, _) = run_call(&mut cn, &FeOp::GetMaxMemSlots);
+                report::eval(1);
+                report::count("followup_calls", 1);
+                match v2 {
+                    Verdict::Returned(o) if o.ok && o.vals == vec![tag] => {}
+                    Verdict::Returned(o) => {
+                        report::violation(&format!("C03:followup-after:{}:{}:wrong-result", c.op.name(), c.shape),
+                            base(jo! {"followup" => "get_max_mem_slots", "scripted" => J::x64(tag), "returned" => o.j()}), cfg.replay(&case));
+                    }
+                    Verdict::Blocked(why) => {
+                        report::violation(&format!("C03:followup-after:{}:{}:call-never-returns", c.op.name(), c.shape), base(jo! {"followup" => "get_max_mem_slots", "certificate" => why}), cfg.replay(&case));
+                    }
+                    Verdict::Inconclusive(r) => report::inconclusive(&format!("followup after {} {}: {r}", c.op.name(), c.shape)),
+                }
+            }
         }
     }
     let _ = cn.finish();
@@ -221,7 +249,10 @@ fn gen_cases(cfg: &Cfg, rng: &mut Rng) -> Vec<Case> {
             let kind_r = op.reply_kind(true);
             for need_reply in [false, true] {
                 for reply_ack in [false, true] {
-                    let mk = |script: Script, expect_ok: Option<bool>, shape: &str| Case { op: op.clone(), script, need_reply, reply_ack, expect_ok, shape: shape.to_string() };
+                    // a frontend may leave VHOST_USER_F_PROTOCOL_FEATURES out of SET_FEATURES: REPLY_ACK
+                    // stays negotiated (it depends on the *offered* bit); ring enable needs the acked bit
+                    let echo_pf = matches!(op, FeOp::SetVringEnable(..)) || v.len() % 3 != 0;
+                    let mk = |script: Script, expect_ok: Option<bool>, shape: &str| Case { op: op.clone(), script, need_reply, reply_ack, echo_pf, expect_ok, shape: shape.to_string() };
                     // ---- success with scripted values
                     let mut s = base_script();
                     s.features = rng.interesting64();
